@@ -1,8 +1,10 @@
 #!/bin/bash
-# Re-run every filed seeded change against the check of its property (quick tier) and print the kill table.
+# Re-run every filed seeded change against the check of its property (quick tier) and print the kill table (4 at a time).
 cd "$(dirname "$0")/.."
-for d in seeded/*/; do
-  name=$(basename "$d"); pid=${name%%-*}; slug=${name#*-}
+one() {
+  d=$1; name=$(basename "$d"); pid=${name%%-*}; slug=${name#*-}
   also=$(python3 -c "import json;m=json.load(open('$d/meta.json'));print(','.join(k for k in m.get('checks',{}) if k!='$pid'))")
   tools/seedcheck.py "$pid" "$d" --name "$slug" --no-tests ${also:+--also $also} 2>&1 | grep -E "^(KILLED|SURVIVED|ERROR|PATCH)"
-done
+}
+export -f one
+ls -d seeded/*/ | xargs -P "${JOBS:-4}" -I{} bash -c 'one {}'
